@@ -129,6 +129,61 @@ def lock_skeletons(cls):
     return {name: stmts(fn.body, 0) for name, fn in methods.items() if not name.startswith("_")}
 
 
+def inline_test_locals(fn):
+    """pre-pass before the translator (normalisation of a harmless refactoring): `x = <test>` IMMEDIATELY followed by `if x:` /
+    `if not x:` where the local x is bound once and read once in the whole function -> the test is put back where it is tested.
+    The expression is evaluated at the same point of the same block (so a storage access in it stays where it was, inside the
+    lock or not), only the name disappears; anything else is left alone for the translator to accept or refuse."""
+    stores, loads = {}, {}
+    for n in ast.walk(fn):
+        if isinstance(n, ast.Name):
+            d = stores if isinstance(n.ctx, ast.Store) else loads
+            d[n.id] = d.get(n.id, 0) + 1
+    params = {a.arg for a in fn.args.args}
+
+    def block(body):
+        out = []
+        i = 0
+        while i < len(body):
+            st = body[i]
+            nxt = body[i + 1] if i + 1 < len(body) else None
+            if (isinstance(st, ast.Assign) and len(st.targets) == 1 and isinstance(st.targets[0], ast.Name) and isinstance(nxt, ast.If)):
+                x = st.targets[0].id
+                t = nxt.test
+                neg = isinstance(t, ast.UnaryOp) and isinstance(t.op, ast.Not)
+                inner = t.operand if neg else t
+                if (isinstance(inner, ast.Name) and inner.id == x and x not in params and stores.get(x) == 1 and loads.get(x) == 1
+                        and isinstance(st.value, (ast.BoolOp, ast.Compare, ast.UnaryOp))):
+                    nxt.test = ast.UnaryOp(op=ast.Not(), operand=st.value) if neg else st.value
+                    i += 1
+                    continue
+            out.append(st)
+            i += 1
+        for st in out:
+            for f in ("body", "orelse", "finalbody"):
+                if isinstance(getattr(st, f, None), list) and getattr(st, f) and isinstance(getattr(st, f)[0], ast.stmt):
+                    setattr(st, f, block(getattr(st, f)))
+            for h in getattr(st, "handlers", []) or []:
+                h.body = block(h.body)
+        return out
+    fn.body = block(fn.body)
+    ast.fix_missing_locations(fn)
+    return fn
+
+
+def translate_normalised(c14_tr, nameserver):
+    """c14_tr.translate with this check's own pre-pass on the method ASTs (the translator itself is C14's: not edited)"""
+    tr = c14_tr.Tr(nameserver, nameserver.NameServer)
+    for fn in tr.methods.values():
+        inline_test_locals(fn)
+    order = ["count", "lookup", "register", "set_metadata", "list", "remove", "yplookup"]
+    defs = ["/-- transcription of `NameServer.%s` -/\n%s" % (m, tr.method(m)) for m in order]
+    return ("-- GENERATED by harness/props/c14_tr.py from the source of Pyro5/nameserver.py (class NameServer) — do not edit\n"
+            "import PyroModel.NameServer\nimport PyroModel.NsSrc\n"
+            "set_option linter.unusedVariables false\nnamespace Pyro.Gen.C14Src\nopen Pyro.NS Pyro.NS.Src\n\n" + "\n".join(defs) + "\n" + c14_tr.DISPATCH +
+            "\nend Pyro.Gen.C14Src\n")
+
+
 def extract():
     common.repo_on_path()
     from Pyro5 import nameserver
@@ -151,7 +206,7 @@ def extract():
     # the method BODIES: the transcription of NameServer's methods (translator of C14, imported read-only) into this check's
     # own generated module; PyroProofs/NsSrcTr.lean proves it equal to the hand-written methods, PyroProps/C15Src.lean that NsOps computes the same
     from props import c14_tr
-    src = c14_tr.translate(nameserver)                     # raises c14_tr.Untranslatable: broken tie
+    src = translate_normalised(c14_tr, nameserver)         # raises c14_tr.Untranslatable: broken tie
     src = src.replace("Pyro.Gen.C14Src", "Pyro.Gen.C15Src").replace(
         "-- GENERATED by harness/props/c14_tr.py", "-- GENERATED by harness/props/c15.py (translator: harness/props/c14_tr.py)")
     common.write_if_changed(os.path.join(common.LEAN, "PyroModel", "Gen", "C15Src.lean"), src)
